@@ -539,7 +539,10 @@ func checkC12(sc *Scenario, t *Truth) []Violation {
 						up = tr.State == "Launched"
 					}
 				}
-				if up {
+				if up && sc.Strategy.StallPermille == 0 {
+					// (a supervisor goroutine that is set aside for longer than the shutdown
+					// command's time-out - fault F13 - finds the time-out expired before the
+					// command was even started: nothing can be demanded of that run)
 					done := false
 					for _, in := range t.ByToken["simstop:"+p.StopCmd] {
 						if in.ExecSeq > sd && in.ExitSeq >= 0 && in.ExitSeq < firstKill.Seq {
